@@ -116,7 +116,7 @@ def run(tier, V):
     # random longer literals/lines, and every operator inserted at every position of a literal
     R = rng('c12')
     cases = []
-    words = ['foo', 'Foo', 'bar_1', 'été', 'ab', 'x', 'سلام', 'a-b', 'end', 'FOO']
+    words = ['foo', 'Foo', 'bar_1', 'été', 'ab', 'x', 'سلام', 'a-b', 'end', 'FOO', '😀', '😄a', 'x😃', '𝐀𝐁']      # (4-byte characters that differ in their last byte only)
     for _ in range(3000 if tier == 'quick' else 40000):
         w = R.choice(words)
         pat = ('^' if R.random() < 0.2 else '') + ('\\<' if R.random() < 0.4 else '') + w + ('\\>' if R.random() < 0.4 else '') + ('$' if R.random() < 0.2 else '')
@@ -125,7 +125,7 @@ def run(tier, V):
             toks.insert(R.randint(0, len(toks)), R.choice([w, w.upper(), w.lower(), w + w]))
         line = ''.join(toks) + '\n'
         cases.append((pat, line))
-    for w in ['foo', 'ab', 'éx']:
+    for w in ['foo', 'ab', 'éx', '😀a']:
         for op in '\\.*+?[]{}()$|^':
             for pos in range(len(w) + 1):
                 pat = w[:pos] + op + w[pos:]
